@@ -1,7 +1,7 @@
 /-
 C04, sparse class: one step and whole histories (assembly of the per-key refinements).
 -/
-import PyttbModel.Lemmas.MutArraySparseRead
+import PyttbModel.Lemmas.MutArraySparseTensor
 set_option linter.unusedSimpArgs false
 set_option linter.unusedVariables false
 set_option linter.unusedSectionVars false
@@ -21,10 +21,12 @@ non-empty linear slice (the only linear writes the class supports); every right-
 except an empty array.  Reads: subscript arrays and linear keys on a tensor of order ≥ 1
 (an integer not below `-cells`).  Region keys: writes of a scalar (zero included) through
 integers, slices and index lists, where every NEW mode is addressed by an integer, a list
-or a slice with stop ≥ 1; reads with integers in `-extent .. extent-1`, slices that select
+or a slice with stop ≥ 1; writes of a sparse tensor that has exactly the shape of the
+region (`spTensorOk`: duplicate-free index lists; a new mode may also be addressed by an open
+slice that selects index 0); reads with integers in `-extent .. extent-1`, slices that select
 at least one index and index lists that are non-empty, in range and duplicate-free (a
 scalar comes back when every key element is an integer, a tensor otherwise). -/
-def IdxOp.provedAtSparse (s : List Nat) : IdxOp α → Bool
+def IdxOp.acceptedAtSparse (s : List Nat) : IdxOp α → Bool
   | .write (.subs _) rhs => !rhs.isEmptyValue
   | .write (.lin i) rhs =>
     !rhs.isEmptyValue && (match s with
@@ -37,6 +39,7 @@ def IdxOp.provedAtSparse (s : List Nat) : IdxOp α → Bool
         | _ => false)
       | _ => false)
   | .write (.region parts) (.scalar _) => !parts.isEmpty && newModesOk s parts
+  | .write (.region parts) (.tensor T) => spTensorOk s parts T
   | .write _ _ => false
   | .read (.subs _) => true
   | .read (.lin i) => !s.isEmpty && decide (-(numel s : Int) ≤ i)
@@ -45,19 +48,22 @@ def IdxOp.provedAtSparse (s : List Nat) : IdxOp α → Bool
   | .read (.region parts) =>
     !parts.isEmpty && (intsInRange s parts || (readKeyOk s parts && !parts.all RPart.isInt))
 
-def ProvedHistS : MArr α → List (IdxOp α) → Prop
+/-- former name of `acceptedAtSparse` (kept for the files of other properties) -/
+abbrev IdxOp.provedAtSparse (s : List Nat) (op : IdxOp α) : Bool := op.acceptedAtSparse s
+
+def AcceptedHistS : MArr α → List (IdxOp α) → Prop
   | _, [] => True
-  | m, op :: ops => op.provedAtSparse m.shape = true ∧ ProvedHistS (m.step op).1 ops
+  | m, op :: ops => op.acceptedAtSparse m.shape = true ∧ AcceptedHistS (m.step op).1 ops
 
 theorem Sparse.setItem_refines {S : Sparse α} {m : MArr α} (h : SRel S m) (key : Key) (rhs : Rhs α)
-    (hp : (IdxOp.write key rhs).provedAtSparse S.shape = true) : RefWS (S.setItem key rhs) (m.write key rhs) := by
+    (hp : (IdxOp.write key rhs).acceptedAtSparse S.shape = true) : RefWS (S.setItem key rhs) (m.write key rhs) := by
   cases key with
   | subs rows =>
-    have hr : rhs.isEmptyValue = false := by simpa [IdxOp.provedAtSparse] using hp
+    have hr : rhs.isEmptyValue = false := by simpa [IdxOp.acceptedAtSparse] using hp
     rw [Sparse.setItem_subs S rows rhs hr]
     exact Sparse.setSubscripts_refines h rows rhs
   | lin i =>
-    simp only [IdxOp.provedAtSparse, Bool.and_eq_true, Bool.not_eq_true'] at hp
+    simp only [IdxOp.acceptedAtSparse, Bool.and_eq_true, Bool.not_eq_true'] at hp
     obtain ⟨hr, hs⟩ := hp
     rw [Sparse.setItem_lin S i rhs hr]
     match hsh : S.shape, hs with
@@ -67,7 +73,7 @@ theorem Sparse.setItem_refines {S : Sparse α} {m : MArr α} (h : SRel S m) (key
       rw [if_pos this, MArr.write_lin_eq_subs m e (by rw [← h.shape, hsh]) i hs.1 hs.2 rhs]
       exact Sparse.setSubscripts_refines h _ rhs
   | linSlice a b c =>
-    simp only [IdxOp.provedAtSparse, Bool.and_eq_true, Bool.not_eq_true'] at hp
+    simp only [IdxOp.acceptedAtSparse, Bool.and_eq_true, Bool.not_eq_true'] at hp
     obtain ⟨hr, hs⟩ := hp
     rw [Sparse.setItem_linSlice S a b c rhs hr]
     match hsh : S.shape, hs with
@@ -82,43 +88,43 @@ theorem Sparse.setItem_refines {S : Sparse α} {m : MArr α} (h : SRel S m) (key
         exact Sparse.setSubscripts_refines h _ rhs
       | .ok [], hs => exfalso; simp only [hl] at hs; cases hs
       | .error _, hs => exfalso; simp only [hl] at hs; cases hs
-  | linList is => simp [IdxOp.provedAtSparse] at hp
+  | linList is => simp [IdxOp.acceptedAtSparse] at hp
   | region parts =>
     cases rhs with
     | scalar v =>
-      simp only [IdxOp.provedAtSparse, Bool.and_eq_true, Bool.not_eq_true', List.isEmpty_eq_false_iff] at hp
+      simp only [IdxOp.acceptedAtSparse, Bool.and_eq_true, Bool.not_eq_true', List.isEmpty_eq_false_iff] at hp
       exact Sparse.setRegionScalar_refines h parts v hp.1 hp.2
-    | col vs => simp [IdxOp.provedAtSparse] at hp
-    | arr A => simp [IdxOp.provedAtSparse] at hp
-    | tensor A => simp [IdxOp.provedAtSparse] at hp
+    | col vs => simp [IdxOp.acceptedAtSparse] at hp
+    | arr A => simp [IdxOp.acceptedAtSparse] at hp
+    | tensor A => exact Sparse.setRegionTensor_refines h parts A hp
 
 theorem Sparse.getItem_refines {S : Sparse α} {m : MArr α} (h : SRel S m) (key : Key)
-    (hp : (IdxOp.read key : IdxOp α).provedAtSparse S.shape = true) :
+    (hp : (IdxOp.read key : IdxOp α).acceptedAtSparse S.shape = true) :
     (S.getItem key).map SpReadOut.toReadOut = m.read key := by
   cases key with
   | subs rows => exact Sparse.getItem_subs h rows
   | region parts =>
-    simp only [IdxOp.provedAtSparse, Bool.and_eq_true, Bool.not_eq_true', List.isEmpty_eq_false_iff,
+    simp only [IdxOp.acceptedAtSparse, Bool.and_eq_true, Bool.not_eq_true', List.isEmpty_eq_false_iff,
       Bool.or_eq_true] at hp
     rcases hp.2 with h1 | h1
     · exact Sparse.getItem_ints h parts hp.1 h1
     · exact Sparse.getItem_tensor h parts hp.1 h1.1 h1.2
   | lin i =>
-    simp only [IdxOp.provedAtSparse, Bool.and_eq_true, Bool.not_eq_true', List.isEmpty_eq_false_iff,
+    simp only [IdxOp.acceptedAtSparse, Bool.and_eq_true, Bool.not_eq_true', List.isEmpty_eq_false_iff,
       decide_eq_true_eq] at hp
     exact Sparse.getItem_linear h hp.1 (.lin i) (by intro r; simp) (by intro r; simp)
       (by intro j hj; cases hj; exact hp.2)
   | linSlice a b c =>
-    have hs : S.shape ≠ [] := by simpa [IdxOp.provedAtSparse] using hp
+    have hs : S.shape ≠ [] := by simpa [IdxOp.acceptedAtSparse] using hp
     exact Sparse.getItem_linear h hs (.linSlice a b c) (by intro r; simp) (by intro r; simp) (by intro j hj; cases hj)
   | linList is =>
-    have hs : S.shape ≠ [] := by simpa [IdxOp.provedAtSparse] using hp
+    have hs : S.shape ≠ [] := by simpa [IdxOp.acceptedAtSparse] using hp
     exact Sparse.getItem_linear h hs (.linList is) (by intro r; simp) (by intro r; simp) (by intro j hj; cases hj)
 
 /-- One operation on related states: equal output and related states afterwards (in
 particular the sparse tensor stays well formed). -/
 theorem Sparse.step_refines {S : Sparse α} {m : MArr α} (h : SRel S m) (op : IdxOp α)
-    (hp : op.provedAtSparse S.shape = true) :
+    (hp : op.acceptedAtSparse S.shape = true) :
     SRel (S.step op).1 (m.step op).1 ∧ (S.step op).2 = (m.step op).2 := by
   cases op with
   | write key rhs =>
@@ -152,7 +158,7 @@ theorem Sparse.step_refines {S : Sparse α} {m : MArr α} (h : SRel S m) (op : I
         exact ⟨h, by simp only [hr]⟩
 
 theorem Sparse.run_refines {S : Sparse α} {m : MArr α} (h : SRel S m) (ops : List (IdxOp α))
-    (hp : ProvedHistS m ops) :
+    (hp : AcceptedHistS m ops) :
     SRel (S.run ops).1 (m.run ops).1 ∧ (S.run ops).2 = (m.run ops).2 := by
   induction ops generalizing S m with
   | nil => exact ⟨h, rfl⟩
